@@ -74,35 +74,104 @@ THEOREMS = [
 ]
 LEVEL = 'proof'
 TECHNIQUE = ('Lean 4 proof: refinement of SizedReader (buffer, bytes_read, push-back, socket fragmentation) to a '
-             'cursor over body[:Content-Length] by invariant + induction over the operation history; model tied '
-             'to the real SizedReader / request.body by a differential run over generated histories')
+             'cursor over body[:Content-Length] by invariant + induction over the operation history, extended to sinks '
+             '(fp_out / read_into_file) and iteration; decision model of RequestBody.process / config wiring / '
+             'finish()+trailers with tables regenerated from the live classes; everything tied to the real code by '
+             'a differential run over generated histories, requests and trailers')
 LEVEL_TEXT = ('Proved in Lean, for every body, declared length (exact/shorter/longer/absent), buffer size >= 1, socket '
               'fragmentation and every history over read/read(n)/readline/readline(n)/readlines/readlines(h)/next: up '
               'to the first 413 every operation returns exactly what a cursor over body[:length] returns, the '
               'underlying stream is never read beyond the declared length (also after errors), read() returns the '
-              'whole undelivered rest, with maxbytes=m>0 at most m bytes are delivered, a body within the limit is '
-              'never refused and a longer body that is read to the end is refused with 413; results do not depend '
-              'on the fragmentation. The 411 of RequestBody.process and the config wiring are covered by the '
-              'correspondence run only.')
-LEVEL_NOTE = ('Trusted: Lean kernel, the hand model lean/CpModel/Reader.lean as validated by the differential run '
-              '(SizedReader directly and request.body through in-process WSGI), the harness. cheroot\'s own '
-              'KnownLengthRFile/ChunkedRFile are not modelled; their MaxSizeExceeded is an input event of the model.')
+              'whole undelivered rest, a body within the limit is never refused and a longer body that is read to the '
+              'end is refused with 413; results do not depend on the fragmentation. Extended histories with '
+              'read(n, fp_out), read_into_file and `for line in body` (C05Sink): what a sink receives / the iterator '
+              'yields - also by a call that then raises 413 - is the next bytes of the body in order, an error-free '
+              'history delivers every byte exactly once, and with maxbytes=m>0 EVERY history (413s caught and reading '
+              'continued included) hands at most m bytes to the application (no server-limit event assumed for that '
+              'last theorem). Around the reader (C05Process): body not processed iff process_request_body is off or '
+              'the method is not in methods_with_bodies; 411 iff processed and neither Content-Length nor '
+              'Transfer-Encoding; otherwise SizedReader(length, maxbytes, bufsize, has_trailers) with length = '
+              'int(Content-Length) unless Transfer-Encoding mentions chunked (decimal numerals proved, junk -> None), '
+              'maxbytes = the most specific request.body.maxbytes of the merged per-path config (so that the delivery '
+              'bound holds for the configured limit: C05_configured_limit_enforced), processor looked up in the table '
+              'regenerated from a live RequestBody; finish(): a well-formed trailer is parsed (title-cased names, '
+              'comma-separated headers joined in wire order, otherwise last wins, MaxSizeExceeded -> 413) and - for the '
+              'repaired code - consumed once, so the bytes behind it stay on the connection after every history '
+              '(C05_history_trailer_intact); for the code that re-reads the trailer on every finish() the statement is '
+              'proved false (F27 witness). Correspondence only: cheroot itself (ChunkedRFile is exercised, not '
+              'modelled), the merge of body params into request.params (C03).')
+LEVEL_NOTE = ('Trusted: Lean kernel, the hand models lean/CpModel/Reader.lean, ReaderSink.lean, ReaderProcess.lean as '
+              'validated by the differential run (SizedReader directly, request.body through in-process WSGI with '
+              'config at three levels, finish() over a stand-in stream with cheroot\'s read_trailer_lines contract and '
+              'over cheroot\'s own ChunkedRFile), the harness. cheroot\'s KnownLengthRFile/ChunkedRFile are not '
+              'modelled; their MaxSizeExceeded is an input event of the model. Finding F27 (trailer re-read) is known, '
+              'fix proposed; the model takes the measured repair flag Gen.C05.trailersReadOnce.')
 TRUSTED_BASE = [
     'the underlying stream is modelled as: read(n) returns 1..n bytes while data is left, b"" only at EOF, or '
     'raises MaxSizeExceeded (cheroot server-wide limit) - cheroot itself is not modelled',
-    'trailer parsing in SizedReader.finish (has_trailers) is not modelled',
+    'read_trailer_lines() of the stream (cheroot) is an environment function: it hands out the lines behind the body '
+    'lazily, up to and including the first blank line, or fails',
+    'int(), str.strip(), bytes.title(), dict ordering of CPython as transcribed in ReaderProcess.lean; the per-path '
+    'merge of the configuration is modelled as dict.update from the global config to the deepest path section',
 ]
 ASSUMPTIONS = [
     'bufsize >= 1; sizes and hints are non-negative integers',
     'no concurrent reader on the same request body',
+    'C05X_never_delivers_beyond_maxbytes: no MaxSizeExceeded event of the server-wide limit in the same history',
+    'header values are Latin-1 text (WSGI); Content-Length numerals have fewer than 4300 digits',
 ]
 RULE = ('random op histories (1..14 ops over read/read(n)/readline/readline(n)/readlines/readlines(h)/next/'
-        'read-into-file with n,h from 1 to beyond bufsize) x body (newline-dense / sparse / newline-free / all-LF, '
-        '0..200 KiB, mostly < 64 bytes so that buffer boundaries are dense) x declared length (exact, shorter, '
-        'longer, absent) x bufsize (1..65536) x socket fragmentation (whole, 1-byte, random) x maxbytes '
-        '(None, 0, <, =, > available) x optional MaxSizeExceeded event, each run on SizedReader directly or through '
-        'in-process WSGI; plus (thorough) exhaustive enumeration of short histories over small bodies. A case is '
-        'non-trivial when at least one operation returned data; distinct = distinct (config, body, ops) tuple')
+        'read(n, fp_out)/read_into_file(sink | default make_file)/for-line iteration with n,h from 1 to beyond bufsize) '
+        'x body (newline-dense / sparse / newline-free / all-LF, 0..200 KiB, mostly < 64 bytes so that buffer '
+        'boundaries are dense) x declared length (exact, shorter incl. 0/1/n-1 with pipelined bytes behind, longer, '
+        'absent) x bufsize (1..65536) x socket fragmentation (whole, 1-byte, random) x maxbytes (None, 0, <, =, > '
+        'available) x optional MaxSizeExceeded / connection-reset event, each run on SizedReader directly or through '
+        'in-process WSGI; second part: Content-Length texts x Transfer-Encoding; requests (method x '
+        'methods_with_bodies / process_request_body / request.body.maxbytes|bufsize|length at three config levels x '
+        'Content-Length absent/empty/valid/invalid x Transfer-Encoding x Trailer x Content-Type); finish() over trailer '
+        'blocks (continuation lines, repeated / comma-separated names, malformed lines, missing blank line, failures '
+        'while fetching) followed by a pipelined request; histories over chunked bodies with a trailer (stand-in stream '
+        'and cheroot ChunkedRFile); urlencoded form bodies with declared length exact/shorter/0; plus (thorough) '
+        'exhaustive enumeration of short histories over small bodies. A case is non-trivial when at least one '
+        'operation delivered data / the body was wrapped / a trailer was parsed; distinct = distinct case tuple')
+
+
+# ----------------------------------------------------------------------------------------------
+# a call into the code under test that does not come back is an observation, not a harness failure
+# ----------------------------------------------------------------------------------------------
+class Hang(BaseException):
+    pass
+
+
+HANG_SECONDS = 60
+
+
+def guarded(fn, case, seconds=None):
+    """fn(case), or None when it did not return in time (the loops of the reader can only hang when the code
+    under test was changed; the statement's operations all terminate)."""
+    import signal
+    if not hasattr(signal, 'setitimer'):
+        return fn(case)
+
+    def on_alarm(signum, frame):
+        raise Hang()
+    try:
+        old = signal.signal(signal.SIGALRM, on_alarm)
+    except ValueError:              # not in the main thread
+        return fn(case)
+    signal.setitimer(signal.ITIMER_REAL, seconds or HANG_SECONDS)
+    try:
+        return fn(case)
+    except Hang:
+        return None
+    finally:
+        signal.setitimer(signal.ITIMER_REAL, 0)
+        signal.signal(signal.SIGALRM, old)
+
+
+def report_hang(ctx, case, what):
+    ctx.case(case if len(json.dumps(case)) < 4000 else {'large_case': True}, nontrivial=False, key=json.dumps(case))
+    ctx.oracle_fail(case, '%s did not return within %d s' % (what, HANG_SECONDS), 'hang')
 
 
 # ----------------------------------------------------------------------------------------------
@@ -671,9 +740,10 @@ def gen_case(rng, big=False):
 
 def enum_small():
     """Exhaustive small scope: bodies over {a, LF} of length <= 4, bufsize in {1,2,3}, declared length
-    exact or one short, histories of length <= 3 over a 7-op alphabet, then a draining read()."""
+    exact or one short, histories of length <= 3 over a 9-op alphabet (sink and iteration included), then a
+    draining read()."""
     import itertools
-    alpha = ['read:1', 'read:2', 'readline', 'readline:1', 'readline:2', 'readlines:2', 'next']
+    alpha = ['read:1', 'read:2', 'readline', 'readline:1', 'readline:2', 'readlines:2', 'next', 'readfp:2', 'iter']
     hists = [list(h) for k in (1, 2, 3) for h in itertools.product(alpha, repeat=k)]
     for n in range(0, 5):
         for bits in itertools.product(b'a\n', repeat=n):
@@ -698,7 +768,12 @@ def case_key(case):
 
 
 def check_cases(ctx, cases, compare=True, stats=True):
-    obs_list = [run_real(c) for c in cases]
+    obs_list = [guarded(run_real, c) for c in cases]
+    for c, o in zip(cases, obs_list):
+        if o is None:
+            report_hang(ctx, c, 'the operation history on the request body')
+    cases = [c for c, o in zip(cases, obs_list) if o is not None]
+    obs_list = [o for o in obs_list if o is not None]
     model = None
     if compare:
         lines = []
